@@ -93,7 +93,7 @@ pub proof fn lemma_ubits_positions<G: GetAdjacencyMatrix>(g: G, ids: Seq<G::Node
 pub fn get_adj_matrix_upper_diagonal_as_bits<G>(graph: G) -> (r: (usize, Vec<usize>))
 where
     G: GetAdjacencyMatrix + IntoNodeIdentifiers/*+*/,
-    requires forall|i: int| 0 <= i < graph.node_ids().len() ==> graph.adj_node(#[trigger] graph.node_ids()[i]), graph.node_ids().len() < usize::MAX, graph.adj_pre(),
+    requires forall|i: int| 0 <= i < graph.node_ids().len() ==> graph.adj_node(#[trigger] graph.node_ids()[i]), graph.node_ids().len() < usize::MAX, graph.adj_pre(), graph.ids_inv(),
     ensures r.0 == graph.node_ids().len(),                                      // [g6_order_is_node_count]
         r.1@ == ubits(graph, graph.node_ids(), graph.node_ids().len() as int)/*-*/,      // [g6_bits_are_upper_triangle_in_iteration_order]
 {
